@@ -4,6 +4,7 @@ cd /verif
 for d in seeded/*/; do
   id=$(basename $d)
   prop=$(python3 -c "import json;print(json.load(open('$d/meta.json'))['breaks_property'])")
+  if grep -q superseded_by $d/meta.json; then echo "$id -> superseded (no longer breaks the property on the repaired tree)"; continue; fi
   (cd /repo && git apply /verif/$d/patch.diff) || { echo "$id: patch does not apply"; continue; }
   line=$(./check $prop 2>&1 | grep -E "^(OK|FAIL)" | cut -c1-120)
   (cd /repo && git checkout -q -- .)
